@@ -303,16 +303,21 @@ def gen_tie_sig():
 FILE_THEOREMS = ["gen_Label_parse_eq", "gen_Label_dump_eq", "gen_dump_eq", "gen_parse_section_eq", "gen_parsing_error_wrapper_eq", "gen_db_create_sim", "gen_db_add_sim",
                  "gen_step_g_sim", "gen_step_eq_variant", "gen_step_leading_nl", "gen_step_g_unterminated", "gen_run_eq_variant", "gen_run_g_sim", "gen_run_file_lines_eq",
                  "gen_parse_text_eq", "C09_translated_file", "C09_translated_file_text", "C10_translated_file", "C10_translated_file_text", "C10_translated_file_line",
-                 "C15_translated_file"]
+                 "C15_translated_file",
+                 # the read side and load (Gen/GenDbP.v, Gen/GenDbC.v)
+                 "gen_iter_values_all", "gen_iter_values_sim", "gen_get_random_all", "gen_get_random_eq", "gen_db_create_ok", "gen_db_add_ok", "gen_len_eq", "gen_step_g_db",
+                 "gen_load_eq", "gen_load_text_eq", "gen_load_keeps_invariants", "C15_translated_sound", "C15_translated_complete", "C15_translated_none", "C15_translated_unloaded",
+                 "C11_translated_failed_load_preserves", "C11_translated_failed_load_preserves_map", "C11_translated_no_accumulation", "C11_translated_no_accumulation_map",
+                 "C11_translated_idempotent", "C11_translated_idempotent_map", "C11_translated_text", "C11_translated_len"]
 
 
 def gen_tie_file():
     """database/parse/parser.py (the line loop of _parse_file as a step function, _parse_section), labels/*.py, records/*.py, records_database.py
-    (create / add over a dictionary model) -> Gallina (translate/file2coq.py + db2coq.py), proved to simulate Model/DbParse.v's step / run / parse_text
+    (create / add / _get / iter_values / get_random / __len__ / _replace over a dictionary model), database.py (Database.load) -> Gallina (translate/file2coq.py + db2coq.py), proved to simulate Model/DbParse.v's step / run / parse_text
     (coq/Gen/GenFileP.v), corollaries for C09 / C10 / C15 in coq/Gen/GenFileC.v.  Builds on the signature-text translation (sig2coq)."""
-    return gen_tie_single("file", "file2coq.py", "GeneratedFile.v", ["GenFileP.v", "GenFileC.v"], FILE_THEOREMS,
+    return gen_tie_single("file", "file2coq.py", "GeneratedFile.v", ["GenFileP.v", "GenFileC.v", "GenDbP.v", "GenDbC.v"], FILE_THEOREMS,
                           ["Model/Text.v", "Model/SigParse.v", "Model/DbParse.v", "Model/Sig.v", "Model/Bits.v", "Model/Dump.v", "Spec/C01.v", "Spec/C09.v", "Proofs/DbParseP.v",
-                           "Proofs/TextP.v", "Proofs/LabelsP.v", "../translate/db2coq.py", "../translate/sig2coq.py"],
+                           "Proofs/TextP.v", "Proofs/LabelsP.v", "Model/DbState.v", "Proofs/DbStateP.v", "../translate/db2coq.py", "../translate/sig2coq.py"],
                           pre=[("sig2coq.py", "GeneratedSig.v", "GenSigP.v")])
 
 
@@ -671,8 +676,8 @@ def run_check(prop, tier, replay=None):
                       "the regex ,(?![^\\[]*\\]) = the model's hsplit, h11's maybe_extract_lines = the model's extract_lines, bytes.split(None, 2) / strip / lower / partition = "
                       "Model/Text.v + Model/HttpRead.v functions; Gen/GenHttpP.v + GenHttpC.v re-checked on every run")
         if "file" in spec:
-            tb.append("translator translate/file2coq.py + db2coq.py (parser.py's line loop / _parse_section, labels/*.py, records/*.py, records_database.py create/add -> step function over "
-                      "a generated state): its reading of the subset; ASSUMED: HTTPSignature.parse = the model's parse_http_sig, a dict = insertion-ordered association list, "
+            tb.append("translator translate/file2coq.py + db2coq.py (parser.py's line loop / _parse_section, labels/*.py, records/*.py, records_database.py create / add / _get / iter_values / "
+                      "get_random / __len__ / _replace, Database.load -> step function over a generated state; random.choice(l) = nth pick l for an index argument, open() / always_path assumed): its reading of the subset; ASSUMED: HTTPSignature.parse = the model's parse_http_sig, a dict = insertion-ordered association list, "
                       "`label.sys = ..` as a functional update (no record holds that label yet), class / enum tables by name; Gen/GenFileP.v + GenFileC.v re-checked on every run")
     tb += getattr(mod, "TRUSTED", [])
     ev["coverage"] = {
